@@ -48,3 +48,17 @@ pub fn be_value(b: &[u8]) -> u128 {
     }
     v
 }
+
+/// Harness around the real `parse_conditions` with `parse_args` stubbed by `$stub`
+/// (see arm.rs).
+#[macro_export]
+macro_rules! arm_harness {
+    ($name:ident, $stub:path, $unwind:expr, $body:block) => {
+        #[kani::proof]
+        #[kani::unwind($unwind)]
+        #[kani::stub(std::hash::RandomState::new, $crate::stubs::fixed_keys)]
+        #[kani::stub(std::vec::Vec::reserve, $crate::stubs::reserve_stub)]
+        #[kani::stub(chia_consensus::conditions::parse_args, $stub)]
+        fn $name() $body
+    };
+}
